@@ -417,3 +417,14 @@ package db
 //@ region funclit#2
 //@ flag skip frame
 //@ ensures[until-ns] result0 == !ns
+
+// ---- C03 / C10: the CDB driver's GetLocationByMap against the DBI contract -----------------------------------
+// An IPv4 client (IP.To4() != nil) is matched only against IPv4 subnets, which are stored v4-mapped with
+// prefix lengths 96..128: the returned prefix length is at least 96, whatever prefix-length set
+// (combined or per family) the database carries. Reads of the database (FindStart/FindNext) are abstracted.
+// (net.IP.To4, net.IPMask.Size and the ghost isv4ip are declared in package dnsdata's contract file)
+//@ func cdbdriver.GetLocationByMap
+//@ flag unclaimed bounds/cachedCIDRMask|bounds/currentCIDRMask
+//@ requires ipnet != nil
+//@ ensures[family] result2 == nil && result0 != nil && uf.isv4ip(ipnet.IP) ==> result1 >= 96
+//@ loop 1 invariant 0 <= i && i <= 16
